@@ -155,6 +155,23 @@ fn replay_rank<const D: usize>(case: &Value, v: &mut Verdict) {
     if a != b || a != c || !(a != a3) {
         v.mismatch("tensor.ne: is not the negation of ==", ctx(json!({})));
     }
+    // clone and clone_from (the buffer-reusing form, into tensors of another shape / another element count) are copies
+    {
+        let mut targets: Vec<Tensor<i64, D>> = vec![Tensor::<i64, D>::new([1usize; D], 7), Tensor::<i64, D>::new([2usize; D], -1)];
+        for s in arr(case, "same_count") {
+            let od: [usize; D] = arr_d(&us(s));
+            targets.push(Tensor::<i64, D>::new(od, 3));
+        }
+        targets.push(a.clone());
+        for mut o in targets {
+            v.checks += 1;
+            let from_dims = *o.dims();
+            o.clone_from(&a);
+            if o != a || o.dims() != &dims || o.iter().cloned().collect::<Vec<_>>() != data {
+                v.mismatch("tensor.clone_from: the copy differs from the source", ctx(json!({"target_dims": from_dims.to_vec(), "copy_dims": o.dims().to_vec()})));
+            }
+        }
+    }
     for s in arr(case, "same_count") {
         let od: [usize; D] = arr_d(&us(s));
         v.checks += 1;
